@@ -378,6 +378,10 @@ func Run(c *run.Ctx) {
 			}
 			return
 		}
+		if cs.Kind == "pipeline" {
+			pipelineOne(c, cs.CliSecs)
+			return
+		}
 		execCase(c, &cs)
 		return
 	}
@@ -414,6 +418,8 @@ func Run(c *run.Ctx) {
 			c.Count("shape_cases", 1)
 		}
 	}
+
+	pipelineCases(c)
 
 	// 2. generated streams
 	type stream struct {
